@@ -195,6 +195,7 @@ PLANS = {
         module='RucteProps.C18',
         theorems=['Ructe.C18.template_code_pure', 'Ructe.C18.template_code_location_independent', 'Ructe.C18.build_deterministic', 'Ructe.C18.statics_line_pure'],
         runs=[dict(suite='script', mix='tree,statics', n=dict(quick=150, thorough=3000), projection='script+files', tags=['C18']),
+              dict(suite='script', mix='history', n=dict(quick=60, thorough=1500), projection='script+files', tags=['C18']),
               dict(suite='parse', mix='examples,structured', n=dict(quick=1500, thorough=50000), projection='text', tags=['C18'])],
         correspondence='generated files byte for byte vs the model\'s single answer; the same tree in shuffled creation orders and other locations (tmpfs / ext4) must agree',
         rule='every tree scenario again with shuffled creation order (= read_dir order on tmpfs) at another location; the code for (name, template bytes) recorded across all scenarios; non-trivial = distinct run outputs + distinct accepted syntax trees',
@@ -287,7 +288,8 @@ PLANS = {
     'C04': dict(
         module='RucteProps.C04',
         theorems=['Ructe.C04.render_call', 'Ructe.C04.block_captures_caller', 'Ructe.C04.render_content_param', 'Ructe.C04.compose_chain', 'Ructe.C04.lower_block'],
-        runs=[dict(suite='e2e', n=dict(quick=800, thorough=12000), projection='identity', tags=['C04'], args=['--layout'])],
+        runs=[dict(suite='e2e', n=dict(quick=800, thorough=12000), projection='identity', tags=['C04'], args=['--layout']),
+              dict(suite='parse', mix='structured,examples', n=dict(quick=1500, thorough=50000), projection='body', tags=['C04'])],
         correspondence='as C03, on programs with calls and Content blocks across modules (templates printed with random layouts)',
         rule='typed template programs: 1..5 templates per program in up to 3 module levels, acyclic calls with 0..3 Content blocks (empty / comment-only / nested directives and calls), if / else-if chains / if-let / for over slices, tuples (& patterns), struct destructuring, ranges, enumerate / match with 2..3 arms, every relational operator, negation, &&, ||; 3 argument sets per program; every rendering re-run under fault sinks (failure at every byte offset for renderings up to 48 bytes, sampled beyond; chunk sizes 1 / 3 / 7 / unlimited; Interrupted every 2nd / 5th call); non-trivial = distinct renderings',
         assumptions=['user fragments are pure and infallible', 'module name resolution is rustc\'s (the generated crate compiles or the check reports it)'],
